@@ -1,1 +1,451 @@
+/-
+  Property C02 — ABI encoding equals the Solidity ABI specification for every type and value.
+  Model: FFS.Model.Abi.encode (pkg/abi/abiencode.go: elementary encoders, the three-pass head/tail layout with
+  value-driven dynamic flags). Spec: FFS.Spec.Abi.enc / isDynamic (from the Solidity ABI specification).
+  * `encode_eq_spec` : for every valid type tree (elementary widths as the type parser admits them) and every
+                       well-typed value, the model encoder returns exactly the specification bytes, and its
+                       value-driven dynamic flag equals the specification's type-driven one. No bound on depth,
+                       arity, array length or byte length — other than encodings being shorter than 2^256 bytes,
+                       the width of an offset word (`Small`).
+  * `elem_rejects_out_of_range` : an integer outside the range of its declared width is an error, never a wrapped
+                       value.
+  fixed<M>x<N> / ufixed<M>x<N> are not covered (known finding C02-fixedpoint; not modelled); the reading of JSON /
+  Go input values into the value tree (Model.AbiIO.walkInput) is covered by the correspondence run, not proved.
+-/
 import FFS.Model.AbiIO
+import FFS.Spec.Abi
+import FFS.Lemmas.Bytes
+namespace FFS.Props.C02
+open FFS FFS.Model.Abi
+
+/-! ### valid elementary types -/
+
+/-- name, codec and width of an elementary type as `parseElementary` produces them from the type table -/
+def ElemOK (info : ElemInfo) (suffix : String) (m : Nat) : Prop :=
+  (info.name = "int" ∧ codecOf info.enc = .sint ∧ 8 ≤ m ∧ m ≤ 256 ∧ m % 8 = 0) ∨
+  (info.name = "uint" ∧ codecOf info.enc = .uint ∧ 8 ≤ m ∧ m ≤ 256 ∧ m % 8 = 0) ∨
+  (info.name = "address" ∧ codecOf info.enc = .uint ∧ m = 160) ∨
+  (info.name = "bool" ∧ codecOf info.enc = .uint ∧ m = 8) ∨
+  (info.name = "bytes" ∧ codecOf info.enc = .bytes ∧ ((suffix = "" ∧ m = 0) ∨ (suffix ≠ "" ∧ 1 ≤ m ∧ m ≤ 32))) ∨
+  (info.name = "function" ∧ codecOf info.enc = .bytes ∧ m = 24) ∨
+  (info.name = "string" ∧ codecOf info.enc = .string ∧ m = 0)
+
+/-- the regenerated type table assigns exactly these encoders -/
+theorem table_codecs :
+    (Gen.AbiTypeTable.table.map fun i => (i.name, codecOf i.enc)) =
+      [("address", .uint), ("bool", .uint), ("bytes", .bytes), ("fixed", .float), ("function", .bytes),
+       ("int", .sint), ("string", .string), ("ufixed", .float), ("uint", .uint)] := by decide
+
+mutual
+  def ValidTy : Ty → Prop
+    | .elem info suffix m _ => ElemOK info suffix m
+    | .farr t _ => ValidTy t
+    | .darr t => ValidTy t
+    | .tuple _ ts => ValidTys ts
+  def ValidTys : List Ty → Prop
+    | [] => True
+    | t :: ts => ValidTy t ∧ ValidTys ts
+end
+
+/-! ### arithmetic helpers -/
+
+theorem bitLen_le_of_lt (n m : Nat) (h : n < 2 ^ m) : bitLen n ≤ m := by
+  unfold bitLen
+  split
+  · omega
+  · rename_i hn
+    have := (Nat.log2_lt hn).mpr h
+    omega
+
+theorem pow_le_256 (m : Nat) (h : m ≤ 256) : 2 ^ m ≤ 256 ^ 32 := by
+  have : (256 : Nat) ^ 32 = 2 ^ 256 := by rw [show (256 : Nat) = 2 ^ 8 from rfl, ← Nat.pow_mul]
+  rw [this]
+  exact Nat.pow_le_pow_right (by omega) h
+
+theorem pad_arith (len : Nat) :
+    (len / 32) * 32 + (if len % 32 ≠ 0 then 32 else 0) - len = (32 - len % 32) % 32 := by
+  split <;> omega
+
+theorem encodeDynamicBytes_eq (b : Bytes) : encodeDynamicBytes b = Spec.Abi.encUint b.length ++ Spec.Abi.padRight32 b := by
+  unfold encodeDynamicBytes Spec.Abi.encUint Spec.Abi.padRight32
+  simp only [pad_arith, List.append_assoc]
+
+/-! ### elementary values -/
+
+theorem encodeElem_eq (info : ElemInfo) (suffix : String) (m n : Nat) (v : CV) (hok : ElemOK info suffix m)
+    (hw : Spec.Abi.WellTyped (.elem info suffix m n) v = true) :
+    encodeElem info m v = .ok (Spec.Abi.encElem info suffix m v, Spec.Abi.isDynamic (.elem info suffix m n)) := by
+  unfold Spec.Abi.WellTyped at hw
+  rcases hok with ⟨hn, hc, h8, h256, hmod⟩ | ⟨hn, hc, h8, h256, hmod⟩ | ⟨hn, hc, hm⟩ | ⟨hn, hc, hm⟩ |
+    ⟨hn, hc, hm⟩ | ⟨hn, hc, hm⟩ | ⟨hn, hc, hm⟩
+  · -- int<M>
+    cases v with
+    | int z =>
+      simp only [hn, if_true, Bool.and_eq_true, decide_eq_true_eq, beq_self_eq_true] at hw
+      obtain ⟨⟨hlo, hhi⟩, _⟩ := hw
+      have hfit : checkSignedIntFits z m = true := by
+        unfold checkSignedIntFits
+        split
+        · rfl
+        · split
+          · simp only [Bool.and_eq_true, decide_eq_true_eq]
+            exact ⟨⟨⟨h8, h256⟩, hmod⟩, by omega⟩
+          · simp only [Bool.and_eq_true, decide_eq_true_eq]
+            exact ⟨⟨⟨h8, h256⟩, hmod⟩, by omega⟩
+      simp [encodeElem, hc, hfit, Spec.Abi.encElem, hn, serializeInt256, Spec.Abi.isDynamic]
+    | bytes b => simp [hn] at hw
+    | str s => simp [hn] at hw
+    | kids cs => simp at hw
+  · -- uint<M>
+    cases v with
+    | int z =>
+      simp only [hn, Bool.and_eq_true, decide_eq_true_eq] at hw
+      have hw' : 0 ≤ z ∧ z < 2 ^ m := by simpa using hw
+      have hnat : z.toNat < 2 ^ m := by
+        have : (z.toNat : Int) = z := Int.toNat_of_nonneg hw'.1
+        have h2 : ((2 ^ m : Nat) : Int) = (2 : Int) ^ m := by simp
+        omega
+      have hbl := bitLen_le_of_lt _ _ hnat
+      have hfill : fillBytes? z.toNat 32 = .ok (toBE 32 z.toNat) := by
+        unfold fillBytes?
+        have := pow_le_256 m h256
+        simp; omega
+      have hneg : ¬ z < 0 := by omega
+      have hblt : ¬ bitLen z.toNat > m := by omega
+      simp [encodeElem, hc, hneg, hblt, hfill, Outcome.bind, Spec.Abi.encElem, hn, Spec.Abi.encUint, Spec.Abi.isDynamic]
+    | bytes b => simp [hn] at hw
+    | str s => simp [hn] at hw
+    | kids cs => simp at hw
+  · -- address
+    cases v with
+    | int z =>
+      subst hm
+      have hw' : 0 ≤ z ∧ z < 2 ^ 160 := by simpa [hn] using hw
+      have hnat : z.toNat < 2 ^ 160 := by
+        have : (z.toNat : Int) = z := Int.toNat_of_nonneg hw'.1
+        have h2 : ((2 ^ 160 : Nat) : Int) = (2 : Int) ^ 160 := by simp
+        omega
+      have hbl := bitLen_le_of_lt _ _ hnat
+      have hfill : fillBytes? z.toNat 32 = .ok (toBE 32 z.toNat) := by
+        unfold fillBytes?
+        have := pow_le_256 160 (by omega)
+        simp; omega
+      have hneg : ¬ z < 0 := by omega
+      have hblt : ¬ bitLen z.toNat > 160 := by omega
+      simp [encodeElem, hc, hneg, hblt, hfill, Outcome.bind, Spec.Abi.encElem, hn, Spec.Abi.encUint, Spec.Abi.isDynamic]
+    | bytes b => simp [hn] at hw
+    | str s => simp [hn] at hw
+    | kids cs => simp at hw
+  · -- bool
+    cases v with
+    | int z =>
+      subst hm
+      have hw' : z = 0 ∨ z = 1 := by simpa [hn] using hw
+      have hnat : z.toNat < 2 ^ 8 := by rcases hw' with rfl | rfl <;> decide
+      have hbl := bitLen_le_of_lt _ _ hnat
+      have hfill : fillBytes? z.toNat 32 = .ok (toBE 32 z.toNat) := by
+        unfold fillBytes?
+        have := pow_le_256 8 (by omega)
+        simp; omega
+      have hneg : ¬ z < 0 := by rcases hw' with rfl | rfl <;> decide
+      have hblt : ¬ bitLen z.toNat > 8 := by omega
+      simp [encodeElem, hc, hneg, hblt, hfill, Outcome.bind, Spec.Abi.encElem, hn, Spec.Abi.encUint, Spec.Abi.isDynamic]
+    | bytes b => simp [hn] at hw
+    | str s => simp [hn] at hw
+    | kids cs => simp at hw
+  · -- bytes / bytes<M>
+    cases v with
+    | bytes b =>
+      rcases hm with ⟨hs, hm0⟩ | ⟨hs, h1, h32⟩
+      · subst hm0
+        simp [encodeElem, hc, Spec.Abi.encElem, hn, hs, encodeDynamicBytes_eq, Spec.Abi.isDynamic]
+      · have hlen : b.length = m := by simpa [hn, hs] using hw
+        have hm0 : m ≠ 0 := by omega
+        have hguard : ¬ (b.length < m ∨ m > 32) := by omega
+        have hpad : Spec.Abi.padRight32 (b.take m) = b.take m ++ zeros (32 - m) := by
+          unfold Spec.Abi.padRight32
+          have : (b.take m).length = m := by simp [hlen]
+          rw [this]
+          congr 2
+          omega
+        simp [encodeElem, hc, hm0, hguard, Spec.Abi.encElem, hn, hs, hpad, Spec.Abi.isDynamic]
+    | int z => simp [hn] at hw
+    | str s => simp [hn] at hw
+    | kids cs => simp at hw
+  · -- function
+    cases v with
+    | bytes b =>
+      subst hm
+      have hlen : b.length = 24 := by simpa [hn] using hw
+      have hguard : ¬ (b.length < 24 ∨ 24 > 32) := by omega
+      have hpad : Spec.Abi.padRight32 (b.take 24) = b.take 24 ++ zeros (32 - 24) := by
+        unfold Spec.Abi.padRight32
+        have : (b.take 24).length = 24 := by simp [hlen]
+        rw [this]
+      simp [encodeElem, hc, hguard, Spec.Abi.encElem, hn, hpad, Spec.Abi.isDynamic]
+      omega
+    | int z => simp [hn] at hw
+    | str s => simp [hn] at hw
+    | kids cs => simp at hw
+  · -- string
+    cases v with
+    | str s =>
+      subst hm
+      simp [encodeElem, hc, Spec.Abi.encElem, hn, encodeDynamicBytes_eq, Spec.Abi.isDynamic]
+    | int z => simp [hn] at hw
+    | bytes b => simp [hn] at hw
+    | kids cs => simp at hw
+
+/-! ### head / tail layout -/
+
+/-- model items (data, dynamic) ↦ specification items (dynamic, data) -/
+def sw (items : List (Bool × Bytes)) : List (Bytes × Bool) := items.map fun p => (p.2, p.1)
+
+/-- bytes placed in the tail area -/
+def tailLen : List (Bool × Bytes) → Nat
+  | [] => 0
+  | (dyn, e) :: r => (if dyn then e.length else 0) + tailLen r
+
+theorem writeChildren_eq (hl : Nat) : ∀ (items : List (Bool × Bytes)) (tb : Nat),
+    hl + tb + tailLen items < 256 ^ 32 →
+    writeChildren (sw items) (hl + tb) = .ok (Spec.Abi.assembleGo hl items tb) := by
+  intro items
+  induction items with
+  | nil => intro tb _; simp [sw, writeChildren, Spec.Abi.assembleGo]
+  | cons p r ih =>
+    intro tb hb
+    obtain ⟨dyn, e⟩ := p
+    cases dyn with
+    | true =>
+      have hfill : fillBytes? (hl + tb) 32 = .ok (toBE 32 (hl + tb)) := by
+        unfold fillBytes?
+        have : hl + tb < 256 ^ 32 := by simp [tailLen] at hb; omega
+        simp [this]
+      have hrec := ih (tb + e.length) (by simp [tailLen] at hb; omega)
+      have hrec' : writeChildren (sw r) (hl + tb + e.length) = .ok (Spec.Abi.assembleGo hl r (tb + e.length)) := by
+        rw [← hrec]; congr 1; omega
+      simp only [sw, List.map_cons] at hrec' ⊢
+      rw [writeChildren]
+      simp only [if_true, hfill, hrec', Spec.Abi.assembleGo, Spec.Abi.encUint]
+    | false =>
+      have hrec := ih tb (by simp [tailLen] at hb; omega)
+      simp only [sw, List.map_cons] at hrec ⊢
+      rw [writeChildren]
+      simp [hrec, Spec.Abi.assembleGo]
+
+theorem headLen_eq (items : List (Bool × Bytes)) :
+    ((sw items).map fun (d, dyn) => if dyn then 32 else d.length).sum = Spec.Abi.headsLen items := by
+  induction items with
+  | nil => simp [sw, Spec.Abi.headsLen]
+  | cons p r ih =>
+    obtain ⟨dyn, e⟩ := p
+    simp only [sw, List.map_cons, List.sum_cons, Spec.Abi.headsLen] at ih ⊢
+    rw [ih]
+
+theorem any_sw (items : List (Bool × Bytes)) : (sw items).any (·.2) = items.any (·.1) := by
+  induction items with
+  | nil => rfl
+  | cons p r ih => simp only [sw, List.map_cons, List.any_cons] at ih ⊢; rw [ih]
+
+/-- encodings fit an offset word -/
+def LayoutSmall (items : List (Bool × Bytes)) : Prop := Spec.Abi.headsLen items + tailLen items < 256 ^ 32
+
+theorem layout_eq (items : List (Bool × Bytes)) (known : Bool) (hs : LayoutSmall items) :
+    layoutChildren (sw items) known false = .ok (Spec.Abi.assemble items, known || items.any (·.1)) := by
+  unfold layoutChildren
+  simp only [headLen_eq, any_sw]
+  have := writeChildren_eq (Spec.Abi.headsLen items) items 0 (by simpa [LayoutSmall] using hs)
+  simp only [Nat.add_zero] at this
+  rw [this]
+  simp [Spec.Abi.assemble]
+
+theorem layout_len_eq (items : List (Bool × Bytes)) (hs : LayoutSmall items) (hn : items.length < 256 ^ 32) :
+    layoutChildren (sw items) true true =
+      .ok (Spec.Abi.encUint items.length ++ Spec.Abi.assemble items, true) := by
+  unfold layoutChildren
+  simp only [headLen_eq]
+  have := writeChildren_eq (Spec.Abi.headsLen items) items 0 (by simpa [LayoutSmall] using hs)
+  simp only [Nat.add_zero] at this
+  rw [this]
+  have hfill : fillBytes? (sw items).length 32 = .ok (toBE 32 items.length) := by
+    unfold fillBytes?
+    simp [sw, hn]
+  simp [hfill, Spec.Abi.assemble, Spec.Abi.encUint, List.append_assoc]
+
+/-! ### the whole tree -/
+
+mutual
+  /-- every array / tuple node's layout fits an offset word (2^256 bytes), and array counts fit a word -/
+  def Small : Ty → CV → Prop
+    | .farr t _, .kids cs => SmallSame t cs ∧ LayoutSmall (Spec.Abi.encSame t cs)
+    | .darr t, .kids cs => SmallSame t cs ∧ LayoutSmall (Spec.Abi.encSame t cs) ∧ cs.length < 256 ^ 32
+    | .tuple _ ts, .kids cs => SmallEach ts cs ∧ LayoutSmall (Spec.Abi.encEach ts cs)
+    | _, _ => True
+  def SmallSame : Ty → List CV → Prop
+    | _, [] => True
+    | t, c :: cs => Small t c ∧ SmallSame t cs
+  def SmallEach : List Ty → List CV → Prop
+    | t :: ts, c :: cs => Small t c ∧ SmallEach ts cs
+    | _, _ => True
+end
+
+theorem encSame_length (t : Ty) : ∀ cs, (Spec.Abi.encSame t cs).length = cs.length
+  | [] => by simp [Spec.Abi.encSame]
+  | c :: cs => by simp [Spec.Abi.encSame, encSame_length t cs]
+
+theorem encSame_any (t : Ty) : ∀ cs, (Spec.Abi.encSame t cs).any (·.1) = (!cs.isEmpty && Spec.Abi.isDynamic t)
+  | [] => by simp [Spec.Abi.encSame]
+  | c :: cs => by
+    simp only [Spec.Abi.encSame, List.any_cons, encSame_any t cs]
+    cases cs <;> cases Spec.Abi.isDynamic t <;> simp
+
+theorem encEach_any : ∀ (ts : List Ty) (cs : List CV), Spec.Abi.wellTypedEach ts cs = true →
+    (Spec.Abi.encEach ts cs).any (·.1) = Spec.Abi.anyDyn ts
+  | [], [], _ => by simp [Spec.Abi.encEach, Spec.Abi.anyDyn]
+  | t :: ts, c :: cs, h => by
+    rw [Spec.Abi.wellTypedEach] at h
+    simp only [Bool.and_eq_true] at h
+    simp only [Spec.Abi.encEach, List.any_cons, Spec.Abi.anyDyn, encEach_any ts cs h.2]
+  | [], _ :: _, h => by simp [Spec.Abi.wellTypedEach] at h
+  | _ :: _, [], h => by simp [Spec.Abi.wellTypedEach] at h
+
+mutual
+  /-- **The encoder produces the specification encoding** of every well-typed value of every valid type, and its
+      value-driven dynamic flag is the specification's type-driven one. -/
+  theorem encode_eq_spec : ∀ (v : CV) (t : Ty), ValidTy t → Spec.Abi.WellTyped t v = true → Small t v →
+      encode t v = .ok (Spec.Abi.enc t v, Spec.Abi.isDynamic t)
+    | .int z, t, hv, hw, _ => by
+      cases t with
+      | elem info suffix m n =>
+        rw [encode, Spec.Abi.enc]
+        exact encodeElem_eq info suffix m n _ (by simpa [ValidTy] using hv) hw
+      | farr t k => simp [Spec.Abi.WellTyped] at hw
+      | darr t => simp [Spec.Abi.WellTyped] at hw
+      | tuple ns ts => simp [Spec.Abi.WellTyped] at hw
+    | .bytes b, t, hv, hw, _ => by
+      cases t with
+      | elem info suffix m n =>
+        rw [encode, Spec.Abi.enc]
+        exact encodeElem_eq info suffix m n _ (by simpa [ValidTy] using hv) hw
+      | farr t k => simp [Spec.Abi.WellTyped] at hw
+      | darr t => simp [Spec.Abi.WellTyped] at hw
+      | tuple ns ts => simp [Spec.Abi.WellTyped] at hw
+    | .str b, t, hv, hw, _ => by
+      cases t with
+      | elem info suffix m n =>
+        rw [encode, Spec.Abi.enc]
+        exact encodeElem_eq info suffix m n _ (by simpa [ValidTy] using hv) hw
+      | farr t k => simp [Spec.Abi.WellTyped] at hw
+      | darr t => simp [Spec.Abi.WellTyped] at hw
+      | tuple ns ts => simp [Spec.Abi.WellTyped] at hw
+    | .kids cs, t, hv, hw, hs => by
+      cases t with
+      | elem info suffix m n => simp [Spec.Abi.WellTyped] at hw
+      | farr t k =>
+        rw [Spec.Abi.WellTyped] at hw
+        simp only [Bool.and_eq_true, beq_iff_eq] at hw
+        rw [Small] at hs
+        rw [ValidTy] at hv
+        have hrec := encodeSame_eq_spec cs t hv hw.2 hs.1
+        rw [encode, hrec, Spec.Abi.enc]
+        simp only []
+        rw [layout_eq _ false hs.2, encSame_any]
+        simp only [Bool.false_or, Spec.Abi.isDynamic]
+        congr 2
+        rw [← hw.1]
+        cases cs <;> simp
+      | darr t =>
+        rw [Spec.Abi.WellTyped] at hw
+        rw [Small] at hs
+        rw [ValidTy] at hv
+        have hrec := encodeSame_eq_spec cs t hv hw hs.1
+        rw [encode, hrec, Spec.Abi.enc]
+        simp only []
+        rw [layout_len_eq _ hs.2.1 (by rw [encSame_length]; exact hs.2.2), encSame_length]
+        simp [Spec.Abi.isDynamic]
+      | tuple ns ts =>
+        rw [Spec.Abi.WellTyped] at hw
+        rw [Small] at hs
+        rw [ValidTy] at hv
+        have hrec := encodeEach_eq_spec cs ts hv hw hs.1
+        rw [encode, hrec, Spec.Abi.enc]
+        simp only []
+        rw [layout_eq _ false hs.2, encEach_any ts cs hw]
+        simp [Spec.Abi.isDynamic]
+  theorem encodeSame_eq_spec : ∀ (cs : List CV) (t : Ty), ValidTy t → Spec.Abi.wellTypedSame t cs = true → SmallSame t cs →
+      encodeSame t cs = .ok (sw (Spec.Abi.encSame t cs))
+    | [], t, _, _, _ => by simp [encodeSame, Spec.Abi.encSame, sw]
+    | c :: cs, t, hv, hw, hs => by
+      rw [Spec.Abi.wellTypedSame] at hw
+      simp only [Bool.and_eq_true] at hw
+      rw [SmallSame] at hs
+      rw [encodeSame, encode_eq_spec c t hv hw.1 hs.1, encodeSame_eq_spec cs t hv hw.2 hs.2]
+      simp [Spec.Abi.encSame, sw]
+  theorem encodeEach_eq_spec : ∀ (cs : List CV) (ts : List Ty), ValidTys ts → Spec.Abi.wellTypedEach ts cs = true → SmallEach ts cs →
+      encodeEach ts cs = .ok (sw (Spec.Abi.encEach ts cs))
+    | [], [], _, _, _ => by simp [encodeEach, Spec.Abi.encEach, sw]
+    | c :: cs, t :: ts, hv, hw, hs => by
+      rw [Spec.Abi.wellTypedEach] at hw
+      simp only [Bool.and_eq_true] at hw
+      rw [SmallEach] at hs
+      rw [ValidTys] at hv
+      rw [encodeEach, encode_eq_spec c t hv.1 hw.1 hs.1, encodeEach_eq_spec cs ts hv.2 hw.2 hs.2]
+      simp [Spec.Abi.encEach, sw]
+    | [], _ :: _, _, hw, _ => by simp [Spec.Abi.wellTypedEach] at hw
+    | _ :: _, [], _, hw, _ => by simp [Spec.Abi.wellTypedEach] at hw
+end
+
+/-- `EncodeABIData` returns exactly the specification bytes -/
+theorem encodeData_eq_spec (t : Ty) (v : CV) (hv : ValidTy t) (hw : Spec.Abi.WellTyped t v = true) (hs : Small t v) :
+    encodeData t v = .ok (Spec.Abi.enc t v) := by
+  simp [encodeData, encode_eq_spec v t hv hw hs]
+
+/-- **Out-of-range integers are rejected, never wrapped.** -/
+theorem uint_out_of_range_rejected (info : ElemInfo) (m : Nat) (z : Int) (hc : codecOf info.enc = .uint)
+    (h : z < 0 ∨ (2 : Int) ^ m ≤ z) : encodeElem info m (.int z) = .err := by
+  unfold encodeElem
+  simp only [hc]
+  rcases h with h | h
+  · simp [h]
+  · have hz : ¬ z < 0 := by
+      have : (0 : Int) < 2 ^ m := Int.pow_pos (by decide)
+      omega
+    have hbl : bitLen z.toNat > m := by
+      unfold bitLen
+      have hnat : 2 ^ m ≤ z.toNat := by
+        have : (z.toNat : Int) = z := Int.toNat_of_nonneg (by omega)
+        have h2 : ((2 ^ m : Nat) : Int) = (2 : Int) ^ m := by simp
+        omega
+      have hne : z.toNat ≠ 0 := by
+        have : 0 < 2 ^ m := Nat.pow_pos (by decide)
+        omega
+      simp only [hne, if_false]
+      have := (Nat.le_log2 hne).mpr hnat
+      omega
+    simp [hz, hbl]
+
+theorem int_out_of_range_rejected (info : ElemInfo) (m : Nat) (z : Int) (hc : codecOf info.enc = .sint)
+    (h : z < -(2 : Int) ^ (m - 1) ∨ (2 : Int) ^ (m - 1) ≤ z) : encodeElem info m (.int z) = .err := by
+  unfold encodeElem
+  simp only [hc]
+  have hpos : (0 : Int) < 2 ^ (m - 1) := Int.pow_pos (by decide)
+  have : checkSignedIntFits z m = false := by
+    unfold checkSignedIntFits
+    have hz : z ≠ 0 := by omega
+    simp only [hz, if_false]
+    split
+    · simp only [Bool.and_eq_false_iff, decide_eq_false_iff_not]
+      right; omega
+    · simp only [Bool.and_eq_false_iff, decide_eq_false_iff_not]
+      right; omega
+  simp [this]
+
+/-- non-vacuity: the table's `uint` row, with a width the parser admits, satisfies `ElemOK` -/
+example : ∀ info ∈ Gen.AbiTypeTable.table, info.name = "uint" → ElemOK info "256" 256 := by
+  intro info hmem hn
+  refine Or.inr (Or.inl ⟨hn, ?_, by decide, by decide, by decide⟩)
+  have hall : Gen.AbiTypeTable.table.all (fun i => i.name != "uint" || decide (codecOf i.enc = .uint)) = true := by decide
+  have := List.all_eq_true.mp hall info hmem
+  simpa [hn] using this
+
+end FFS.Props.C02
